@@ -117,6 +117,11 @@ theorem ld_one (mem : Mem) : Isa.ld mem (IAm.W 1) = some (mem.read 1) := by
   rw [this]
   exact ld_ofNat mem 1 (by unfold memWords; omega)
 
+theorem ofNat_toNat_ne_one (n : Nat) (h2 : 2 ≤ n) (hlt : n < memWords) : (BitVec.ofNat 32 n).toNat ≠ 1 := by
+  simp only [BitVec.toNat_ofNat]
+  unfold memWords at hlt
+  omega
+
 theorem store_ofNat (env : Env) (mem : Mem) (n : Nat) (v : Word) (h : n < memWords) (hc : env.isCode n = false) :
     IAm.store env mem (BitVec.ofNat 32 n) v = some (mem.write n v) := by
   unfold IAm.store
@@ -344,8 +349,11 @@ theorem exec_operands (K : PCtx) (wf : K.WF) (l' r' : AExpr) (vl vr : Word) (σ 
     have hst : IAm.store K.env mem1 (mem1.read 1 + IAm.W ((K.S : Int) - 1 + -(gs1.offset : Int))) vr
         = some (mem1.write (K.slot gs1.offset) vr) := by
       rw [rep1.sp, hadr]; exact store_ofNat _ _ _ _ hsl1 hsl2
+    have hne1 : (mem1.read 1 + IAm.W ((K.S : Int) - 1 + -(gs1.offset : Int))).toNat ≠ 1 := by
+      rw [rep1.sp, hadr]
+      exact ofNat_toNat_ne_one _ (by have := wf.sp_ge; unfold PCtx.slot; omega) hsl1
     have sB := Step.stai (env := K.env) (cfg (i + (K.low cr).length + 1) vr (mem1.read 1) mem1) io _ _
-      hat'.tail.head hst
+      hat'.tail.head hst hne1
     -- memory after the save still represents σ
     have frm2 : Frm K gs1.offset (gs1.offset + 1) mem1 (mem1.write (K.slot gs1.offset) vr) := by
       intro ad had
